@@ -19,6 +19,10 @@
  *            L<int> pin header length   v validate_lead   l read_lead
  *            h read_header   o zck_init_read (lead+header)   c clear_error
  *            a zck_init_adv_read (implicit before the first op)
+ *            Fpipe | Fsock | Ffifo : (first op) the image is presented through a pipe / a socket pair / a named FIFO instead of a
+ *                    regular file (everything is queued before the library reads)
+ *            Foff  : (first op) the image follows a pristine copy of the whole unpatched file in the same descriptor, which is
+ *                    positioned at the image's first byte
  *       Output: "R <id> r1,r2,..." (one result per op).
  * The id of the case being executed is written to <marker> (pwrite) before it
  * runs, so a crash is attributable.  No oracle logic here. */
@@ -29,6 +33,9 @@
 #include <stdlib.h>
 #include <string.h>
 #include <sys/mman.h>
+#include <signal.h>
+#include <sys/socket.h>
+#include <sys/wait.h>
 #include <sys/stat.h>
 #include <unistd.h>
 #include <zck.h>
@@ -39,6 +46,10 @@ static size_t flen[MAXF];
 static int nfiles;
 static int memfd = -1;
 static int marker = -1;
+static int curfd = -1;          /* descriptor the ops of the current P line use */
+static int extra_fds[4], n_extra;
+static pid_t feeders[4];
+static int n_feeders;
 static FILE *out;
 
 static void mark(const char *id) {
@@ -150,6 +161,7 @@ int main(int argc, char **argv) {
         close(fd);
         nfiles++;
     }
+    signal(SIGPIPE, SIG_IGN);
     memfd = memfd_create("hdrmut", 0);
     if(memfd < 0) { perror("memfd_create"); return 3; }
     zck_set_log_level(ZCK_LOG_NONE);
@@ -196,12 +208,66 @@ int main(int argc, char **argv) {
             unsigned char *img = apply_patches(fi, patches, &il);
             set_image(img, il);
             free(img);
+            curfd = memfd;
+            n_extra = 0;
             zckCtx *z = zck_create();
-            zck_init_adv_read(z, memfd);
             fprintf(out, "R %s ", id);
             int first = 1;
+            int inited = 0, presented = 0;
             for(char *op = strtok_r(NULL, " ", &save); op; op = strtok_r(NULL, " ", &save)) {
                 int r = -9;
+                if(op[0] == 'F') {
+                    /* how the image reaches the library */
+                    presented = 1;
+                    struct stat st;
+                    fstat(memfd, &st);
+                    size_t il2 = st.st_size;
+                    unsigned char *img2 = malloc(il2 ? il2 : 1);
+                    if(pread(memfd, img2, il2, 0) != (ssize_t)il2) exit(3);
+                    if(!strcmp(op, "Foff")) {
+                        if(ftruncate(memfd, 0) < 0 || pwrite(memfd, fdata[fi], flen[fi], 0) != (ssize_t)flen[fi] ||
+                           pwrite(memfd, img2, il2, flen[fi]) != (ssize_t)il2) exit(3);
+                        lseek(memfd, flen[fi], SEEK_SET);
+                    } else {
+                        int pfd[2];
+                        if(!strcmp(op, "Fsock")) {
+                            if(socketpair(AF_UNIX, SOCK_STREAM, 0, pfd) < 0) exit(3);
+                            int sz = (int)il2 + 65536;
+                            setsockopt(pfd[1], SOL_SOCKET, SO_SNDBUF, &sz, sizeof(sz));
+                            int t0 = pfd[0]; pfd[0] = pfd[1]; pfd[1] = t0;   /* write to [1], read from [0] */
+                        } else if(!strcmp(op, "Ffifo")) {
+                            char fp[64];
+                            snprintf(fp, sizeof(fp), "fifo.%d", (int)getpid());
+                            unlink(fp);
+                            if(mkfifo(fp, 0600) < 0) exit(3);
+                            pfd[0] = open(fp, O_RDONLY | O_NONBLOCK);
+                            pfd[1] = open(fp, O_WRONLY);
+                            fcntl(pfd[0], F_SETFL, fcntl(pfd[0], F_GETFL) & ~O_NONBLOCK);
+                            unlink(fp);
+                        } else if(pipe(pfd) < 0) exit(3);
+                        if(strcmp(op, "Fsock")) fcntl(pfd[1], F_SETPIPE_SZ, (int)il2 + 65536);
+                        /* a child process feeds the bytes (the image may be larger than the channel's capacity) */
+                        fflush(out);
+                        pid_t feeder = fork();
+                        if(feeder == 0) {
+                            close(pfd[0]);
+                            size_t done = 0;
+                            while(done < il2) {
+                                ssize_t w = write(pfd[1], img2 + done, il2 - done);
+                                if(w <= 0) break;
+                                done += w;
+                            }
+                            _exit(0);
+                        }
+                        close(pfd[1]);
+                        feeders[n_feeders++] = feeder;
+                        curfd = pfd[0];
+                        extra_fds[n_extra++] = pfd[0];
+                    }
+                    free(img2);
+                    continue;
+                }
+                if(!inited && op[0] != 'o' && op[0] != 'a') { zck_init_adv_read(z, curfd); inited = 1; }
                 switch(op[0]) {
                 case 'T': r = zck_set_ioption(z, ZCK_VAL_HEADER_HASH_TYPE, atoll(op + 1)); break;
                 case 'L': r = zck_set_ioption(z, ZCK_VAL_HEADER_LENGTH, atoll(op + 1)); break;
@@ -217,9 +283,9 @@ int main(int argc, char **argv) {
                 case 'v': r = zck_validate_lead(z); break;
                 case 'l': r = zck_read_lead(z); break;
                 case 'h': r = zck_read_header(z); break;
-                case 'o': lseek(memfd, 0, SEEK_SET); r = zck_init_read(z, memfd); break;
+                case 'o': if(!presented) lseek(memfd, 0, SEEK_SET); r = zck_init_read(z, curfd); inited = 1; break;
                 case 'c': r = zck_clear_error(z); break;
-                case 'a': r = zck_init_adv_read(z, memfd); break;
+                case 'a': r = zck_init_adv_read(z, curfd); inited = 1; break;
                 default: return 3;
                 }
                 fprintf(out, "%s%d", first ? "" : ",", r);
@@ -227,6 +293,9 @@ int main(int argc, char **argv) {
             }
             fprintf(out, "\n");
             zck_free(&z);
+            for(int k = 0; k < n_extra; k++) close(extra_fds[k]);
+            for(int k = 0; k < n_feeders; k++) { int st; waitpid(feeders[k], &st, 0); }
+            n_feeders = 0;
         } else if(line[0] != '#') {
             fprintf(stderr, "bad case line\n");
             return 3;
